@@ -33,6 +33,7 @@ import PyhamModel.Lemmas.CapstoneWF
 import PyhamModel.Lemmas.Clustering
 import PyhamModel.Lemmas.NewickLemmas
 import PyhamModel.Lemmas.AggLemmas
+import PyhamModel.Lemmas.RoundtripLoaded
 namespace Pyham.Props
 open Pyham
 
@@ -366,6 +367,32 @@ theorem C12_export_members (H : Ham) (n : Node) (h : exportable n = true) :
     (refsOfL (ihamExport H n).groups).Perm n.leaves ∧
     ((ihamExport H n).species.flatMap (fun s => s.genes.map (·.id))).Perm n.leaves :=
   Pyham.C12_export_members H n h
+
+/-- the export of a HOG is the encoding of a well-formed, RECOVERABLE spelled history (`spell`): the
+    exporter never elides a group the loader cannot re-infer (this is what the repairs D5 and D9 restored) -/
+theorem C12_export_is_recoverable_encoding (T : STree) (nm : Naming) (pOg keep : Bool) (n : Node) (h : ExportWF T n) :
+    exportVisit (nameOrEmpty T nm) pOg keep n = encode T nm n.tx (spell pOg keep n) ∧
+    wfh T n.tx (spell pOg keep n) = true ∧ recoverable n.tx (spell pOg keep n) = true ∧
+    Realises n.tx (spell pOg keep n) (stripNode n) :=
+  ⟨export_is_encode T nm pOg keep n h, spell_wfh T pOg keep n h, spell_recoverable T pOg keep n h,
+   spell_realised T pOg keep n h⟩
+
+/-- **round-trip**: re-loading the export of a HOG with the same species tree yields exactly one family,
+    and that family and the original HOG (minus the LOFT ids and paralogGroup ids the exporter does not
+    write) realise one and the same history: same members, same taxon for every sub-HOG, same duplication
+    grouping -/
+theorem C12_roundtrip (H : Ham) (n : Node) (hn : NamesInj H.tree H.naming) (hw : ExportWF H.tree n)
+    (hh : n.isGene = false) :
+    ∃ H' n', load H.tree H.naming (ihamExport H n) = .ok H' ∧
+      H'.tops.map (·.2) = [n'] ∧
+      Realises n.tx (spell false false n) n' ∧
+      Realises n.tx (spell false false n) (stripNode n) :=
+  Pyham.C12_roundtrip H n hn hw hh
+
+/-- the hypothesis `ExportWF` holds for every top-level HOG of a well-formed analysis (and, hereditarily
+    -- `HogFacts.sub` -- for every sub-HOG), in particular of every loaded consistent input -/
+theorem C12_exportWF_of_wf (H : Ham) (hw : H.wf = true) (p : Option String × Node) (hp : p ∈ H.tops) :
+    ExportWF H.tree p.2 := exportWF_of_wf H hw p hp
 
 /-- the iHam page carries one family-data record per member gene -/
 theorem C12_famdata (H : Ham) (n : Node) : (famData H n).map (·.id) = n.leaves := Pyham.C12_famdata H n
